@@ -65,7 +65,7 @@ CHECKS = {
         "claim": "history and writer-fault simulation of text.Encoder: a long-lived encoder renders tape-generated values of the aircraftlib schema (all numeric kinds, text and data with quotes, backslashes, control and high bytes, enums in and out of range, unions, groups, nested lists, defaults) for up to 10^5 consecutive calls and must give byte-identical output to a fresh encoder at every step; each rendering is parsed by an independent parser for the text format and every recovered field must equal what was set through the generated accessors; a failing Write must surface as an error and leave only a prefix of the rendering; the history also switches the encoder between registries (the default one set explicitly, a copy of the compiled-in schema, a second schema version in which every field and enumerant name is renamed) and the names shown must come from the registry in force",
         "engine": "textsim", "level": "exploration",
         "budget": {"quick": 25, "thorough": 600},
-        "min_runs": {"quick": 80000},
+        "min_runs": {"quick": 25000},  # (histories with registry switches cost about three times as much per run)
         "rule": RULE_TEXT,
         "faults": ["write_err"],
     },
